@@ -749,6 +749,9 @@ func genCont(c *hx.Ctx) {
 			}
 			if g.aborted {
 				g.n, g.keys = snapN, snapKeys
+			} else if j == ntx-1 && mode == "M" && g.shape[0] == "arr" {
+				// the generator does not track values, so an assigning filter can only be the last operation
+				ops = append(ops, "FL,"+strconv.Itoa(r.Intn(2)))
 			}
 			txs = append(txs, mode+":"+strings.Join(ops, ";"))
 		}
